@@ -201,10 +201,14 @@ class RemoteProxy(BaseProxy):
             await self._channel.close()
         except ConnectionError:
             # The simulator has reset the connection (e.g. its process
-            # died). The channel's receiver has ended with the same
-            # error, so the reader task will never see the end of the
-            # requests. Stopping the other simulators must go on.
-            self._reader_task.cancel()
+            # died). Stopping the other simulators must go on.
+            pass
+        # The connection is closed, so requests of this simulator can
+        # not be answered anymore. Do not wait for the reader task: it
+        # might never see the end of the requests (reset connection),
+        # or still serve a request that waits for another simulator
+        # which is gone, too.
+        self._reader_task.cancel()
         try:
             await self._reader_task
         except asyncio.CancelledError:
